@@ -4,7 +4,7 @@ PROPS = {}
 
 PROPS['C11'] = dict(
     title='clean() normal form; word boundaries',
-    groups=[dict(template='c11_word_boundaries.rs'), dict(template='c11_clean.rs')],
+    groups=[dict(template='c11_word_boundaries.rs'), dict(template='c11_clean.rs'), dict(template='c11_unicode.rs')],
     claim='text::clean(s) == flat(normal_form(chars(s))) where normal_form = whitespace-split words joined by single spaces; lemmas: normal form is clean (no leading/trailing/adjacent whitespace, only \' \' separators), preserves the non-whitespace characters, is idempotent; text::word_boundaries returns exactly the maximal non-whitespace runs in order, covering every non-whitespace character; whitespace::remove / full == non-whitespace characters joined by "" / " ".',
     not_covered=['idempotence is proved on character sequences; that re-segmenting the output string yields the same characters is an assumption about grapheme segmentation'],
     assumptions=['domain of the property: no character mixes whitespace and non-whitespace code points (then str::trim is the identity on non-whitespace characters)', 'itertools filter/join semantics (vt_filter_join)'],
